@@ -296,3 +296,6 @@ func deltaStr(a, b int) string {
 	}
 	return fmt.Sprintf("delta=%d", d)
 }
+
+// Safe runs f and returns the panic value as text ("" if none).
+func Safe(f func()) string { return safe(f) }
